@@ -9,7 +9,8 @@ for p in props:
     pid = p['id']
     path = os.path.join(HERE, 'checks', pid.lower() + '.py')
     meta = None
-    if os.path.exists(path):
+    enabled = open(os.path.join(HERE, 'tools', 'enabled.txt')).read().split()
+    if os.path.exists(path) and pid in enabled:
         src = open(path).read()
         m = re.search(r'^MANIFEST = (\{.*?^\})', src, re.S | re.M)
         if m:
